@@ -9,7 +9,10 @@ ALL_KINDS = ["op", "op", "comp", "comp", "struct", "struct", "kraus", "measure",
 
 
 def strategy(tier):
-    return S.program_case(ALL_KINDS, max_steps=8 if tier == "quick" else 14, min_steps=3)
+    from hypothesis import strategies as st
+
+    return st.one_of(S.program_case(ALL_KINDS, max_steps=8 if tier == "quick" else 14, min_steps=3),
+                     S.program_case(ALL_KINDS, max_steps=8 if tier == "quick" else 14, min_steps=3), S.lifecycle_case())
 
 RULE = (
     "Histories as in C07 on worlds partitioned into several blocks (own states, combined envelopes, composite "
